@@ -1150,6 +1150,34 @@ def verbs_of(script):
     return [a.get("verb", a["k"]) for a in script]
 
 
+def limit_exceeded(n, schedule, cfg):
+    """connection limits are shared BY DESIGN among live sessions (C10): a schedule is inside this property's hypothesis only
+    if the configured limit is never needed by two LIVE sessions at once (then only a dead session could exhaust it)"""
+    mc = cfg.get("maxconn") or {}
+    if not mc:
+        return None
+    late = {i for i in range(n) if next((a["k"] for j, a in schedule if j == i), None) == "connect"}
+    alive = {i: None for i in range(n) if i not in late}  # session -> login it holds a per-user slot for
+    if mc.get("server") and len(alive) > mc["server"]:
+        return "more live connections than the server-wide limit"
+    for i, a in schedule:
+        if a["k"] == "drop" or (a["k"] in ("cmd", "send") and a["verb"].upper() == "QUIT") or (a["k"] in ("cmd", "send") and a.get("raw")):
+            alive.pop(i, None)
+            continue
+        if i not in alive:
+            if i in late and a["k"] == "connect":
+                alive[i] = None
+                if mc.get("server") and len(alive) > mc["server"]:
+                    return f"session {i} connects while {len(alive) - 1} other(s) live: server-wide limit {mc['server']}"
+            continue
+        if a["k"] in ("cmd", "send") and a["verb"].upper() == "USER":
+            login = a.get("arg", "")
+            if mc.get("user") and sum(1 for j, l in alive.items() if j != i and l == login) >= mc["user"]:
+                return f"session {i} logs in as {login!r} while another live session holds that user's only slot"
+            alive[i] = login
+    return None
+
+
 def oracle(n, dirs, schedule, cfg, res, solos):
     """the property, evaluated on the implementation alone.  Returns list of (key, what, detail)"""
     bad = []
@@ -1159,6 +1187,9 @@ def oracle(n, dirs, schedule, cfg, res, solos):
             return [("c17-event-loop-blocked" + ("" if who == "interleaved" else "-solo"),
                      f"{who}: the server's event-loop thread did not return within {r['budget']} s of wall time during step #{k} "
                      f"({verb} {arg} of session {i}): every session is frozen (a blocking call / a thread lock held across an await)", {"actor": i, "at": k})]
+    why = limit_exceeded(n, schedule, cfg)
+    if why:
+        return [("outside-hypothesis", why, {})]
     canon_initial = ftpsim.canon_tree(TREE)
     # O6 every command sent and completed in one step: the same replies at the same VIRTUAL instants (relative to the
     # instant the command was sent) as in the solo run - nobody is delayed, let alone blocked, by what others do
